@@ -75,9 +75,19 @@ impl<'a, W: Write> DocumentPrinter<'a, W> {
     /// Prints the given doc comments.
     pub fn docs(&mut self, docs: &[DocComment]) -> std::fmt::Result {
         for doc in docs {
+            // An empty comment has no lines but is still a comment
+            if doc.comment.is_empty() {
+                self.indent()?;
+                write!(self.writer, "///")?;
+                self.newline()?;
+            }
+
             for line in doc.comment.lines() {
                 self.indent()?;
-                write!(self.writer, "/// {line}", line = line.trim())?;
+                match line.trim() {
+                    "" => write!(self.writer, "///")?,
+                    line => write!(self.writer, "/// {line}")?,
+                }
                 self.newline()?;
             }
         }
